@@ -28,7 +28,7 @@ def run(cmd, env=None, cwd=None, timeout=3600):
 
 try:
     run('git -C /repo worktree add --detach %s HEAD -q' % wt)
-    rc, out = run('git apply %s' % os.path.join(sdir, 'patch.diff'), cwd=wt)
+    rc, out = run('git apply %s 2>/dev/null || (git reset -q --hard && git apply --3way %s)' % ((os.path.join(sdir, 'patch.diff'),) * 2), cwd=wt)
     res['applies'] = rc == 0
     if rc != 0:
         res['apply_error'] = out[-500:]
